@@ -306,6 +306,10 @@ def run_case(rec: Recorder, kind: str, size: int, method: str, chunked: bool, hi
         return
     if unrewindable_raised:
         rec.count("unrewindable_raised")
+        if not reqs and not fired_sends and not partial:
+            # nothing was sent yet, so nothing had to be sent again: a body that cannot be rewound can still be sent once
+            rec.fail(case, "unrewindable-before-first-attempt", obs, f"UnrewindableBodyError before any request was written (body kind {kind})")
+            return
         if kind in ("bytes", "bytearray", "memoryview", "array", "array-H", "memoryview-I", "str", "str-nonascii", "bytesio", "stringio", "binfile", "binfile-offset", "binfile-eof", "textfile", "list", "list-empties", "iter-str", "tuple-bytes", "none", "shortreads", "shortreads-raw"):
             rec.fail(case, "unrewindable-for-rewindable-body", obs, f"UnrewindableBodyError for body kind {kind}")
 
